@@ -14,7 +14,8 @@ RULE = ("Cases: a curve set of 3-12 windows on a drawn grid (some windows delibe
         "masks False), time-domain rejection coupling (maximum-value / STA-LTA rejection with hvsr=..., which overwrites both "
         "masks). After every operation every statistic (both distributions, also spelled 'log-normal') is compared with the "
         "textbook estimator over the accepted windows. Non-trivial = a state with >= 1 rejected window whose inclusion would "
-        "change the mean curve by > 1e-6 was checked; distinct by SHA-1 of the case.")
+        "change the mean curve by > 1e-6 was checked; distinct by SHA-1 of the case."
+        ' Search limits include inf/1e20/0/-inf. Scale pass: 2^18-2^23 amplitudes (up to 40 000 windows) tiled from the drawn curves, short histories with seeded rejections, final state verified.')
 ASSUMPTIONS = [
     "accept/reject masks are read from the object after each operation (C06/C13 decide whether the masks are right)",
     "states with fewer than two accepted windows or two accepted peaks are outside the property and only checked for documented refusals",
